@@ -3,11 +3,11 @@ package main
 import (
 	"bufio"
 	"encoding/json"
-	"sort"
 	"fmt"
 	"os"
 	"path/filepath"
 	"reflect"
+	"sort"
 	"strconv"
 )
 
@@ -208,7 +208,6 @@ func runAccRA(typ, field string, contents, val []byte) (get0, after, get1 []byte
 	}
 	return
 }
-
 
 // accr <Type> <Field> <contents> <value-hex>
 func opAccR(args []string) string {
